@@ -547,9 +547,14 @@ def _identity_memo_sites(tree):
                             and len(target.elts) == 2:
                         bind(target.elts[1], value.args[0])
                         return
-            for nm in ast.walk(target):
-                if isinstance(nm, ast.Name):
-                    binds.setdefault(nm.id, []).append(value)
+            if isinstance(target, (ast.Tuple, ast.List)):
+                for t in target.elts:
+                    bind(t, value)
+            elif isinstance(target, ast.Starred):
+                bind(target.value, value)
+            elif isinstance(target, ast.Name):
+                # (a store into x[i] / x.a does not make x a local)
+                binds.setdefault(target.id, []).append(value)
         for n in ast.walk(f):
             if isinstance(n, ast.Assign):
                 for t in n.targets:
